@@ -168,7 +168,7 @@ func (in *inst) observe() string {
 func (in *inst) Apply(op string) string {
 	var a, b, c, d int
 	switch {
-	case strings.HasPrefix(op, "init"):
+	case strings.HasPrefix(op, "init "):
 		fmt.Sscanf(op, "init %d %d", &a, &b)
 		err := in.ks.Initialize(master, slots[a], keys[b].pub)
 		want := "ok"
@@ -182,7 +182,7 @@ func (in *inst) Apply(op string) string {
 			in.m.init = true
 			in.m.live[a] = b
 		}
-	case strings.HasPrefix(op, "del"):
+	case strings.HasPrefix(op, "del "):
 		fmt.Sscanf(op, "del %d %d", &a, &b)
 		err := in.ks.DeleteKeySlot(slots[a], keys[b].priv)
 		want := "ok"
@@ -202,7 +202,7 @@ func (in *inst) Apply(op string) string {
 		if err == nil {
 			in.m.live[a] = -1
 		}
-	case strings.HasPrefix(op, "add"):
+	case strings.HasPrefix(op, "add "):
 		fmt.Sscanf(op, "add %d %d %d %d", &a, &b, &c, &d)
 		err := in.ks.AddKeySlot(slots[a], keys[b].pub, slots[c], keys[d].priv)
 		want := "ok"
